@@ -135,13 +135,13 @@ Alloc(e) ==
   /\ BindFile(e.st) /\ UNCHANGED <<cm, rds, begin>> /\ KeepDisk /\ KeepGhost
 
 SetB(e) ==   \* SetBytes of the first e.nq quarters with version e.v
-  /\ tx # NoTx /\ e.err = "" /\ e.id \in TxLive
-  /\ tx' = [tx EXCEPT !.w = @ ++ [x \in {e.id} |-> SetQuarters(TxView(e.id), e.nq, e.v)]]
+  /\ tx # NoTx /\ e.id \in TxLive
+  /\ tx' = IF e.err = "" THEN [tx EXCEPT !.w = @ ++ [x \in {e.id} |-> SetQuarters(TxView(e.id), e.nq, e.v)]] ELSE tx
   /\ BindOrKeep(e) /\ UNCHANGED <<cm, rds, begin>> /\ KeepDisk /\ KeepGhost
 
 LoadSet(e) == \* Load, overwrite quarter e.k in place, MarkDirty
-  /\ tx # NoTx /\ e.err = "" /\ e.id \in TxLive
-  /\ tx' = [tx EXCEPT !.w = @ ++ [x \in {e.id} |-> [TxView(e.id) EXCEPT ![e.k] = e.v]]]
+  /\ tx # NoTx /\ e.id \in TxLive
+  /\ tx' = IF e.err = "" THEN [tx EXCEPT !.w = @ ++ [x \in {e.id} |-> [TxView(e.id) EXCEPT ![e.k] = e.v]]] ELSE tx
   /\ BindOrKeep(e) /\ UNCHANGED <<cm, rds, begin>> /\ KeepDisk /\ KeepGhost
 
 Free(e) ==
@@ -212,6 +212,13 @@ Reopen(e) ==
   /\ BindFile(e.st)
   /\ KeepLogical /\ UNCHANGED begin /\ KeepDisk /\ KeepGhost
 
+\* C14: close and open again with a new maximum size: contents and root are untouched, the
+\* projection is re-bound (the allocator limits and free lists may change)
+OpenResize(e) ==
+  /\ tx = NoTx /\ DOMAIN rds = {}
+  /\ BindFile(e.st)
+  /\ KeepLogical /\ UNCHANGED begin /\ KeepDisk /\ KeepGhost
+
 \* observation without effect on the model (markers)
 Note(e) == UNCHANGED <<coreVars, begin>>
 
@@ -238,6 +245,7 @@ Act(e) ==
     [] e.ev = "Recovered"      -> Recovered(e)
     [] e.ev = "RecoverFailed"  -> Note(e)
     [] e.ev = "Reopen"         -> Reopen(e)
+    [] e.ev = "OpenResize"     -> OpenResize(e)
     [] e.ev = "Note"           -> Note(e)
     [] OTHER                   -> FALSE
 
@@ -280,14 +288,21 @@ RecoveredOK(e) ==
 ADev(e) ==
   CASE e.ev = "ReadR" ->      \* C02/C03: exactly the snapshot taken at the begin of the reader
          \* (reading a page id that is not part of the snapshot is not constrained)
+         \* (a page that was allocated and committed but never written has no defined contents:
+         \* reading it may even fail when it lies beyond the extent of the file)
          F("C03", "ReadR", (e.r \in DOMAIN rds /\ e.id \in DOMAIN rds[e.r].pages) =>
-              (e.err = "" /\ MatchPage(e.q, rds[e.r].pages[e.id])))
+              \/ rds[e.r].pages[e.id] = UndefPage
+              \/ e.err = "" /\ MatchPage(e.q, rds[e.r].pages[e.id]))
     [] e.ev = "ReadW" ->      \* C03: own writes, else committed
          F("C03", "ReadW", tx # NoTx =>
               IF e.id \in TxLive
-                THEN \/ e.err = "" /\ MatchPage(e.q, TxView(e.id))
+                THEN \/ TxView(e.id) = UndefPage
+                     \/ e.err = "" /\ MatchPage(e.q, TxView(e.id))
                      \/ e.err # "" /\ e.id \in tx.new /\ e.id \notin DOMAIN tx.w    \* fresh page without contents
                 ELSE e.err # "")
+    [] e.ev \in {"Set", "LoadSet"} ->
+         \* a valid write is accepted (loading a page that was never written may fail)
+         F("C03", "WriteAccepted", (tx # NoTx /\ e.id \in TxLive /\ e.err # "") => TxView(e.id) = UndefPage)
     [] e.ev = "BeginW" -> F("C03", "BeginRoot", e.err = "" => e.root = cm.root)
     [] e.ev = "BeginR" -> F("C03", "BeginRoot", e.err = "" => e.root = cm.root)
     [] e.ev = "Alloc" ->      \* C04
@@ -306,6 +321,12 @@ ADev(e) ==
     [] e.ev = "Recovered" -> F("C01", "Recovered", RecoveredOK(e))
     [] e.ev = "RecoverFailed" -> {<<"C01", "RecoverFailed">>}
     [] e.ev = "Reopen" -> F("C10", "ReopenProjection", ProjOf(e.st) = Proj)
+    [] e.ev = "OpenResize" ->
+         \* the new limit is stored in the header and in force; nothing else of the logical file changed
+         F("C14", "LimitPersisted", e.st.hmax = e.newmax /\ e.st.maxp = e.newmax)
+         \cup F("C14", "ResizeKeepsState", e.st.root = cm.root /\ LET a == AlOf(e.st) w == WmOf(e.st) IN
+                  /\ (2..(a.dEnd - 1)) \ (a.dFree \cup a.mFree \cup a.flp \cup w.pgs \cup Range(w.map)) = Live
+                  /\ w.map = wm.map)
     [] OTHER -> {}
 
 \* state properties (the disk properties are re-evaluated only when their inputs changed)
